@@ -20,9 +20,11 @@ What is proved here (all for EVERY store satisfying `Inv`, unbounded in keys, va
 * `rm_parked_inv`, `get_rm_parked_same`, `get_rm_parked_other` (`_partial` fragment of rm: the node
   is still referenced by an iterator, so nothing is unlinked): invariant kept, the key is gone, other
   keys unaffected.
-Missing for the full statement: preservation of `Inv` by `trie_insert` when it creates nodes (new
-child, segment extension, `trie_node_split`), by `trie_node_release` (rm of an unreferenced node:
-see Props/C17TrieRm.lean if present), iteration order, notification traces.
+Continued in Props/C17TrieRm.lean (rm in general: `trie_node_release`), Props/C17TriePut.lean (put
+in general: `trie_insert` with new child / segment extension / `trie_node_split`), and
+Props/C17TrieDict.lean (`trie_refines_dict_partial`: all histories of put/get/rm/count).
+Missing for the full statement: iteration order, prefix iterators, notifier add/del, destroy and
+the notification traces (in the executable model, compared exactly with the real code; not proved).
 -/
 import QbVerif.Lemmas.TrieInv
 
